@@ -102,6 +102,9 @@ pub fn make_ossl_ca_with(rng: &mut Rng, key: &PoolKey, forced: &[(&str, Asn1Type
 				"utf8" => gen_text(rng, StrKind::Utf8, 12).replace('\0', "x"),
 				// octets >= 0x80 in a T61String (OpenSSL copies them unchecked): rcgen may refuse the import, it must not re-interpret the name
 				"t61" if rng.chance(1, 3) => format!("{}\u{e9}", gen_host(rng)),
+				// characters outside the alphabet of the chosen type (other tools do not check): same rule
+				"printable" if rng.chance(1, 3) => format!("{}{}{}", gen_host(rng), rng.pick(&["&", "@", "_", "*", "\u{e9}"]), gen_host(rng)),
+				"ia5" if rng.chance(1, 4) => format!("{}\u{fc}", gen_host(rng)),
 				_ => gen_host(rng),
 			}
 		};
@@ -178,7 +181,8 @@ pub fn make_ossl_ca_with(rng: &mut Rng, key: &PoolKey, forced: &[(&str, Asn1Type
 	let mut sans = Vec::new();
 	if rng.chance(1, 3) {
 		let mut s = SubjectAlternativeName::new();
-		let h = gen_host(rng);
+		// now and then a dNSName with non-ASCII (but valid UTF-8) octets, which OpenSSL writes unchecked
+		let h = if rng.chance(1, 5) { format!("m\u{fc}nchen.{}", gen_host(rng)) } else { gen_host(rng) };
 		s.dns(&h);
 		sans.push(SanSpec::Dns(h));
 		if rng.chance(1, 2) {
@@ -201,7 +205,12 @@ pub fn make_ossl_ca_with(rng: &mut Rng, key: &PoolKey, forced: &[(&str, Asn1Type
 	b.sign(&pkey, md).map_err(e)?;
 	let der = b.build().to_der().map_err(e)?;
 	// "rcgen may refuse this import": arcs that do not fit 64 bits, non-ASCII octets in a T61String
-	let huge_arc = subject.iter().any(|x| x.0.starts_with("2.25.") || x.0.ends_with("51616") || (x.1 == "t61" && !x.2.is_ascii()));
+	let huge_arc = subject.iter().any(|x| {
+		x.0.starts_with("2.25.")
+			|| x.0.ends_with("51616")
+			|| (matches!(x.1.as_str(), "t61" | "ia5") && !x.2.is_ascii())
+			|| (x.1 == "printable" && !x.2.bytes().all(crate::derx::is_printable_char))
+	}) || sans.iter().any(|s| matches!(s, SanSpec::Dns(h) if !h.is_ascii()));
 	Ok(OsslCa {
 		der,
 		subject,
@@ -800,7 +809,7 @@ pub fn run_c17(ctx: &Ctx, pool: &[PoolKey]) {
 				"pathlen" => spec.is_ca = IsCaSpec::Ca(Some(i as u8)),
 				"prefix" => {
 					let v6 = i >= 256;
-					let trees: Vec<SubtreeSpec> = (0..4)
+					let trees: Vec<SubtreeSpec> = (0..5)
 						.map(|ctor| SubtreeSpec::Ip(CidrSpec { addr: rng.bytes(if v6 { 16 } else { 4 }), prefix: (i % 256) as u8, ctor }))
 						.collect();
 					spec.is_ca = IsCaSpec::Ca(None);
